@@ -719,10 +719,15 @@ func (ctx Ctx) conversionExpr(call *ast.CallExpr) coq.Expr {
 	}
 	if b, ok := to.Underlying().(*types.Basic); ok &&
 		b.Info()&types.IsNumeric != 0 {
-		if _, modelled := getIntegerType(b); !modelled {
+		info, modelled := getIntegerType(b)
+		if !modelled {
 			// int8(x), uint16(x), float64(x), ...: there is no GooseLang
 			// value of such a type for the operand to become
 			ctx.unsupported(call, "conversion to unsupported type %v", b)
+		}
+		if _, builtin := to.(*types.Basic); builtin {
+			// the predeclared type under another spelling (type U32 = uint32)
+			return ctx.integerConversion(call, arg, info.width)
 		}
 		// TODO: handle integer conversions here, checking if call.Fun is an integer
 		//  type; see https://github.com/goose-lang/goose/issues/14
